@@ -93,11 +93,12 @@ def fmtAttr (a : Attr) : List Piece :=
       | args => pp .LeftParen :: (fmtAttrArgs args ++ [pp .RightParen])) ++
      ((if a.double then [pp .RightSquareBracket] else []) ++ [pp .RightSquareBracket, .sp])))
 where
-  /-- attribute arguments are printed with `format_expression` -/
+  /-- attribute arguments are printed with `format_subexpression(expr, attrArgPrec, attrArgSide)` (2a6da39: a comma
+  expression is parenthesised) -/
   fmtAttrArgs : XArgs → List Piece
     | .nil => []
-    | .cons e .nil => fmtExprX e
-    | .cons e (.cons e' rest) => fmtExprX e ++ (comma :: .sp :: fmtAttrArgs (.cons e' rest))
+    | .cons e .nil => fmtSubX e attrArgPrec attrArgSide
+    | .cons e (.cons e' rest) => fmtSubX e attrArgPrec attrArgSide ++ (comma :: .sp :: fmtAttrArgs (.cons e' rest))
 
 def fmtAttrs : List Attr → List Piece
   | [] => []
